@@ -107,6 +107,54 @@ pub fn exec(toks: &[&str]) -> String {
             }
             None => "bad-op".into(),
         },
+        ["rset", op, aa, a4, a6, ba, b4, b6] => {
+            // ResourceSet: the three chains together (blocks are 128-bit; IPv4 in the upper 32 bits)
+            use rpki::repository::resources::ResourceSet;
+            let mk = |a: &str, v4: &str, v6: &str| -> Option<ResourceSet> {
+                Some(ResourceSet::new(as_chain(a)?, Ipv4Blocks::from(ip_chain(v4)?), Ipv6Blocks::from(ip_chain(v6)?)))
+            };
+            let (Some(a), Some(b)) = (mk(aa, a4, a6), mk(ba, b4, b6)) else { return "bad-op".into() };
+            let show = |r: &ResourceSet| format!("{};{};{}", show_as(r.asn()), show_ip(r.ipv4()), show_ip(r.ipv6()));
+            match *op {
+                "union" => show(&a.union(&b)),
+                "inter" => show(&a.intersection(&b)),
+                "contains" => a.contains(&b).to_string(),
+                "eq" => (a == b).to_string(),
+                "diff" => {
+                    // the two halves of a ResourceDiff are private: read them through its serde form
+                    let d = a.difference(&b);
+                    let v = match serde_json::to_value(&d) { Ok(v) => v, Err(_) => return "serde-ser".into() };
+                    let half = |k: &str| serde_json::from_value::<ResourceSet>(v[k].clone()).ok();
+                    let (Some(added), Some(removed)) = (half("added"), half("removed")) else { return "serde-de".into() };
+                    format!("{}|{}|{}|{}", show(&added), show(&removed), d.is_empty(), hex(d.to_string().as_bytes()))
+                }
+                "text" => {
+                    let t = a.to_string();
+                    let rt = match ResourceSet::from_strs(&a.asn().to_string(), &a.ipv4().to_string(), &a.ipv6().to_string()) {
+                        Ok(x) if x == a && show(&x) == show(&a) => "rt-same", Ok(_) => "rt-differs", Err(_) => "rt-err" };
+                    let sj = match serde_json::to_string(&a) { Ok(j) => match serde_json::from_str::<ResourceSet>(&j) {
+                        Ok(x) if x == a && show(&x) == show(&a) => "serde-same", Ok(_) => "serde-differs", Err(_) => "serde-err" }, Err(_) => "serde-ser" };
+                    format!("{} {} {} {} {}{}{}", hex(t.as_bytes()), rt, sj, a.is_empty(), a.asn_opt().is_some(), a.ipv4_opt().is_some(), a.ipv6_opt().is_some())
+                }
+                _ => "bad-op".into(),
+            }
+        }
+        ["rset-has", aa, a4, a6, what, x, y] => {
+            use rpki::repository::resources::ResourceSet;
+            let (Some(a), Some(v4), Some(v6)) = (as_chain(aa), ip_chain(a4), ip_chain(a6)) else { return "bad-op".into() };
+            let set = ResourceSet::new(a, Ipv4Blocks::from(v4), Ipv6Blocks::from(v6));
+            match *what {
+                "asn" => set.contains_asn(Asn::from_u32(x.parse().unwrap())).to_string(),
+                "roa" => {
+                    // x = first address in the 128-bit space, y = prefix length there; an IPv4 address when the low 96 bits
+                    // are zero and the length is at most 32 (that is how the library keeps IPv4 prefixes)
+                    let (lo, len): (u128, u8) = (x.parse().unwrap(), y.parse().unwrap());
+                    let p = rpki::repository::resources::Prefix::new(Addr::from_bits(lo), len);
+                    set.contains_roa_address(&rpki::repository::roa::RoaIpAddress::new(p, None)).to_string()
+                }
+                _ => "bad-op".into(),
+            }
+        }
         ["limit", la, l4, l6, a, v4, v6] => {
             // RequestResourceLimit::apply_to: `*` = this resource type is not limited; blocks are 128-bit (IPv4 in the upper 32 bits)
             use rpki::ca::provisioning::RequestResourceLimit;
@@ -366,6 +414,60 @@ pub fn generate(ctx: &mut Ctx) {
             let l4 = lim(&mut rng, c4);
             let l6 = lim(&mut rng, c6);
             ctx.case(&format!("limit {} {} {} {} {} {}", la, l4, l6, a, v4, v6));
+        }
+    }
+    // ResourceSet: the three chains together, every operation over pairs of small sets, then random larger ones
+    {
+        let tri: Vec<(String, String, String)> = {
+            let v4s = ["-", "13292279957849158729038070602803445760-14621507953634074601941877663083790335",
+                       "0-79228162514264337593543950335", "13292279957849158729038070602803445760-13292280037077321243302408196347396095,340282366841710300949110269838224261120-340282366920938463463374607431768211455"];
+            let mut t = Vec::new();
+            for (i, a) in sets_as.iter().enumerate().take(if thorough { 40 } else { 14 }) {
+                for (j, v6) in sets_ip.iter().enumerate().take(if thorough { 24 } else { 9 }) {
+                    if (i + j) % 2 == 0 { t.push((show_blocks(a), v4s[(i + 2 * j) % v4s.len()].to_string(), show_blocks(v6))); }
+                }
+            }
+            t
+        };
+        for (i, a) in tri.iter().enumerate() { for (j, b) in tri.iter().enumerate() {
+            if thorough || (i * 5 + j) % 4 == 0 {
+                for op in ["union", "inter", "diff", "contains", "eq"] {
+                    ctx.case(&format!("rset {} {} {} {} {} {} {}", op, a.0, a.1, a.2, b.0, b.1, b.2));
+                }
+            }
+        }}
+        for a in &tri {
+            ctx.case(&format!("rset text {} {} {} - - -", a.0, a.1, a.2));
+            ctx.case(&format!("rset diff {} {} {} {} {} {}", a.0, a.1, a.2, a.0, a.1, a.2));
+            for x in &small_as { ctx.case(&format!("rset-has {} {} {} asn {} 0", a.0, a.1, a.2, x)); }
+            for (lo, len) in [(0u128, 0u8), (0, 1), (0, 126), (0, 128), (4, 126), (4, 127), (13292279957849158729038070602803445760u128, 8),
+                              (13292279957849158729038070602803445760u128, 16), (13292279957849158729038070602803445760u128, 32),
+                              (u128::MAX - 3, 126), (u128::MAX, 128), (1u128 << 127, 1)] {
+                ctx.case(&format!("rset-has {} {} {} roa {} {}", a.0, a.1, a.2, lo, len));
+            }
+        }
+        for _ in 0..(if thorough { 40_000 } else { 4_000 }) {
+            let mk = |rng: &mut Rng, shift: u32| -> String {
+                let mut v = Vec::new(); let mut cur: u128 = rng.below(4) as u128;
+                for _ in 0..rng.below(5) { let len = rng.below(4) as u128; v.push((cur, cur + len)); cur += len + 2 + rng.below(4) as u128; }
+                let w: Vec<(u128, u128)> = if shift == 0 { v } else { v.iter().map(|(x, y)| (x << shift, (y << shift) | ((1u128 << shift) - 1))).collect() };
+                show_blocks(&w)
+            };
+            let a = (mk(&mut rng, 0), mk(&mut rng, 96), mk(&mut rng, 0));
+            // the second set: often shares families with the first
+            let b = (if rng.bool() { a.0.clone() } else { mk(&mut rng, 0) }, if rng.bool() { a.1.clone() } else { mk(&mut rng, 96) },
+                     if rng.bool() { a.2.clone() } else { mk(&mut rng, 0) });
+            let op = *rng.pick(&["union", "inter", "diff", "contains", "eq", "diff"]);
+            ctx.case(&format!("rset {} {} {} {} {} {} {}", op, a.0, a.1, a.2, b.0, b.1, b.2));
+            if rng.chance(1, 4) { ctx.case(&format!("rset text {} {} {} - - -", a.0, a.1, a.2)); }
+            if rng.chance(1, 4) { ctx.case(&format!("rset-has {} {} {} asn {} 0", a.0, a.1, a.2, rng.below(24))); }
+            if rng.chance(1, 4) {
+                // an aligned prefix: IPv4 (upper 32 bits, length <= 32) or in the low end of the IPv6 space
+                let (lo, len) = if rng.bool() { ((rng.below(24) as u128) << 96, rng.below(33) as u32) } else { (rng.below(24) as u128, 96 + rng.below(33) as u32) };
+                let mask = if len == 0 { 0 } else { !((1u128 << (128 - len)).wrapping_sub(1)) };
+                let mask = if len == 128 { u128::MAX } else { mask };
+                ctx.case(&format!("rset-has {} {} {} roa {} {}", a.0, a.1, a.2, lo & mask, len));
+            }
         }
     }
     // text forms
